@@ -45,6 +45,28 @@ def system_ops(ctx, body):
     return out
 
 
+def journalled_decoders_do_not_validate(ctx, rep, rid):
+    """shared with C13: the journal is decoded with the wire decoders, but what a handler journals is a transformed command (hashed or
+    blanked secrets, resolved ids and limits) that need not satisfy request validation; validation is a separate step before dispatch (R13.e)"""
+    rep.rule(rid, 'replay decodes every journalled command: the from_bytes of an EntryCommand payload type applies no request validation (the journalled command is a transformed one - blanked current password, bcrypt hash as password - so a validating decoder makes an acknowledged entry unloadable)', floor=19, analysis='A1 who-may-call')
+    adt = ctx.facts.adts.get(EC)
+    if not adt:
+        rep.anchor_lost(rid, EC)
+        return
+    for v in adt['variants']:
+        if not v['fields']:
+            continue
+        t = v['fields'][0][1]
+        f = '<%s as iggy::bytes_serializable::BytesSerializable>::from_bytes' % t
+        if not ctx.has(f):
+            rep.ob(rid, f, 'decoder of ' + v['name'], False, None, 'journalled payload type %s has no from_bytes' % t)
+            continue
+        b = ctx.fn_body(f)
+        vals = [c for c in b.calls if c.name.endswith('::validate') and is_user_call(c) and (t in c.name)]
+        rep.ob(rid, f, 'decoder of %s does not validate' % v['name'], not vals, vals[0].where() if vals else None, None if not vals else
+               '%s::from_bytes calls validate(): the entry the handler journals for this command is not a valid request (secrets are blanked or replaced by hashes), so the journal cannot be replayed after this command was acknowledged' % t.split('::')[-1])
+
+
 def run(ctx, rep):
     sites = journalling_sites(ctx)
     rep.rule('R05.a', 'acknowledged ⇔ journalled: append dominated by the mutator\'s success edge; every success response passes the append\'s success edge', floor=38, analysis='A2')
@@ -228,6 +250,16 @@ def run(ctx, rep):
     import idkinds
     idkinds.check_calls(ctx, rep, 'R05.j', ['server::state::'])
     idkinds.check_map_keys(ctx, rep, 'R05.j', ['server::state::'])
+
+    # ------------------------------------------------------------ R05.m the journal decoders accept what the handlers journal
+    journalled_decoders_do_not_validate(ctx, rep, 'R05.m')
+
+    # ------------------------------------------------------------ R05.l what the runtime acknowledged, the loader accepts and rebuilds alike
+    rep.rule('R05.l', 'run time and start-up agree on derived settings: the topic size limit is resolved and validated by the same function on create, update and load (an update the loader would refuse is refused at run time), and a consumer group gets the partition count of its topic both when created and when restored', floor=6, analysis='A6 sibling forms')
+    from props.c15 import resolved_limit_forms
+    from props.c08 import group_partition_count_forms
+    resolved_limit_forms(ctx, rep, 'R05.l')
+    group_partition_count_forms(ctx, rep, 'R05.l')
 
     # ------------------------------------------------------------ R05.e start-up deletes only what replay does not know
     rep.rule('R05.e', 'start-up removes a data directory only on the "not found in replayed state" edge', floor=2, analysis='A3')
